@@ -451,7 +451,35 @@ func propC10(c *Ctx) int {
 		c.RunJob(Job{Name: fmt.Sprintf("macro graph %d macros", m), Pkg: "core", Fn: "HMacroGraph", Params: map[string]int64{"macros": m},
 			Stubs: []string{"loc", "rune"}, PanicIsViolation: true, MaxPaths: 2000000, Timeout: time.Hour, MaxSteps: 3000000, MaxDepth: 400, MustReach: []string{"expanded"}})
 	}
+	// the repository's own corpus: every run of top-level blocks of a file becomes a macro, pasted in its place
+	{
+		files := corpusFiles()
+		nWin := (len(files) + 99) / 100
+		rng := rand.New(rand.NewSource(c.Seed + 10))
+		wins, maxn := rng.Perm(nWin), int64(5)
+		if c.Tier == "thorough" {
+			maxn = 7
+		} else if len(wins) > 3 {
+			wins = wins[:3]
+		}
+		sort.Ints(wins)
+		split := 0
+		for _, w := range wins {
+			lo, hi := w*100, w*100+99
+			if hi >= len(files) {
+				hi = len(files) - 1
+			}
+			jr := c.RunJob(Job{Name: fmt.Sprintf("corpus files #%d..#%d, every run of blocks pasted from a macro (<= %d blocks)", lo, hi, maxn), Pkg: "core", Fn: "HCorpusSplit",
+				Params: map[string]int64{"lo": int64(lo), "hi": int64(hi), "maxn": maxn, "paste": 1}, Stubs: []string{"loc", "rune"}, PanicIsViolation: true, MaxPaths: 500000, Timeout: 2 * time.Hour,
+				MaxSteps: 100000000, MaxDepth: 2000, Quiet: true})
+			split += jr.Stats.Reached["split"]
+		}
+		if split == 0 {
+			c.Inconclusive("vacuity: no corpus document was rewritten")
+		}
+	}
 	return c.Finish("model_checking", []string{
+		"corpus family (HCorpusSplit, paste=1): every file under /repo/testdata that is accepted, has no MACRO / PASTE / INCLUDE line and 1..5 (quick: 3 windows of 100 files) / 1..7 (thorough: all files) top-level blocks after JSIGHT: every run of consecutive blocks whose kinds the context table admits inside a MACRO (INFO, SERVER, URL, the methods, TYPE, ENUM — a frozen list) becomes the body of MACRO @zzm ( ... ), defined right after JSIGHT or at the end of the file (symbolic), and PASTE @zzm takes its place: accepted, catalog equal to the one of the original (deep digest, entry by entry)",
 		"macro graphs (HMacroDag): macros a, b, c each calling up to two macros (targets symbolic over {a, b, c, none}: diamonds, the same macro called twice, cycles of any shape): rejected with the recursion error exactly when a macro reaches itself",
 		"one macro used twice (HPasteTwice): two URLs with a path parameter / two methods / two responses, each calling the same macro (bodies incl. a method with a Path directive), optional directive between the calls, MACRO defined before JSIGHT / after it / at the end: accepted, same deep digest as the bodies written in place, closure",
 		"text level (HPasteText): 5 call sites x 11 blocks (incl. resources with path parameters) x 4 following directives x 2 indentations x MACRO defined before JSIGHT / right after it / at the end (all symbolic): the document with the block in place and the document with MACRO/PASTE must both be accepted with equal catalog digests (entities, order, names, annotations, schema text) or rejected with the same message class",
@@ -640,7 +668,35 @@ func propC09(c *Ctx) int {
 			}
 		}
 	}
+	// the repository's own corpus: every run of top-level blocks of a file moves into an included file
+	{
+		files := corpusFiles()
+		nWin := (len(files) + 99) / 100
+		rng := rand.New(rand.NewSource(c.Seed + 9))
+		wins, maxn := rng.Perm(nWin), int64(6)
+		if c.Tier == "thorough" {
+			maxn = 8
+		} else if len(wins) > 3 {
+			wins = wins[:3]
+		}
+		sort.Ints(wins)
+		split := 0
+		for _, w := range wins {
+			lo, hi := w*100, w*100+99
+			if hi >= len(files) {
+				hi = len(files) - 1
+			}
+			jr := c.RunJob(Job{Name: fmt.Sprintf("corpus files #%d..#%d, every run of blocks included (<= %d blocks)", lo, hi, maxn), Pkg: "core", Fn: "HCorpusSplit",
+				Params: map[string]int64{"lo": int64(lo), "hi": int64(hi), "maxn": maxn}, Stubs: []string{"loc", "rune"}, PanicIsViolation: true, MaxPaths: 500000, Timeout: 2 * time.Hour,
+				MaxSteps: 100000000, MaxDepth: 2000, Quiet: true})
+			split += jr.Stats.Reached["split"]
+		}
+		if split == 0 {
+			c.Inconclusive("vacuity: no corpus document was split")
+		}
+	}
 	return c.Finish("model_checking", []string{
+		"corpus family (HCorpusSplit): every file under /repo/testdata that is accepted, has no MACRO / PASTE / INCLUDE line and 1..6 (quick: 3 windows of 100 files) / 1..8 (thorough: all 1108 files) top-level blocks after JSIGHT — cut at the root directives of the implementation's own directive tree, which places the test and does not judge it: every run of consecutive blocks (start and length symbolic) moves into piece.jst, an INCLUDE takes its place: the project is accepted and has the catalog of the single file (deep digest, entry by entry)",
 		fmt.Sprintf("relational: 5 skeleton projects (3 accepted, 2 rule-rejected) and 2 documents rejected while a macro body is expanded at its PASTE (the MACRO may end up in the included file) vs the same project with the run of 1..%d consecutive directive blocks starting at a symbolic directive boundary moved into piece.jst and replaced by INCLUDE (depth 2: the piece is cut once more into inner.jst; two directories: the run is cut into inner.jst next to the root and sub/inner.jst included from sub/wrap.jst — two different files written with the same name); symbolic: cut position, LF/CRLF after INCLUDE, tail of the included file (as is / no final line end / extra blank line / comment line where trivia is legal)", maxSpan),
 		"oracle: equal catalog digest (every entity, order, names, annotations, descriptions, schema text, emitter-level content) or the same error MESSAGE (whole text), located in the file that now holds the directive at the corresponding index",
 		"pieces are cut at directive boundaries only (not inside a directive); JSIGHT stays in the root file; file system = virtual",
